@@ -7,6 +7,11 @@ def _q(tier, quick, thorough):
     return quick if tier == "quick" else thorough
 
 
+def _c05_count(tier):
+    import subprocess
+    return int(subprocess.run(["/verif/target/hooks/release/bvh", "c05-count", "--tier", tier], capture_output=True, text=True).stdout.strip())
+
+
 def _legs_simple(cmd, quick, thorough, **kw):
     def f(tier, seed, scratch):
         leg = dict(cmd=cmd, cases=_q(tier, quick, thorough), name=cmd)
@@ -29,7 +34,7 @@ PROPS = {
         level="exploration",
         floor=50,
         builds=["harness"],
-        legs=_legs_simple("c01", 1500, 40000),
+        legs=_legs_simple("c01", 10000, 300000),
         rule=GEN_NOTE + "A case is one (input, options) pair written through BigWigWrite into an in-memory sink and read "
         "back with get_interval(chrom,0,size) per chromosome plus chroms(); values compared by to_bits, order "
         "included. Non-trivial = >=2 chromosomes, or a chromosome spanning >=2 sections, or a zero-length / "
@@ -44,18 +49,80 @@ PROPS = {
         level="exploration",
         floor=50,
         builds=["harness"],
-        legs=_legs_simple("c02", 1500, 40000),
+        legs=_legs_simple("c02", 10000, 300000),
         rule=GEN_NOTE + "bigBed layouts: disjoint / overlapping / nested / duplicate / zero-length / long-then-short, rest "
         "fields with 0..20 tab-separated UTF-8 columns. A case writes through BigBedWrite (autosql none / generated / "
         "custom) and reads back get_interval(chrom,0,max(size,max end)), item_count(), autosql(), chroms(); entries "
         "compared as sequences. Non-trivial = >=2 chromosomes, >=2 sections, overlaps or zero-length present.",
         assumptions=["same sink assumption as C01"],
     ),
+    "C03": dict(
+        level="exploration",
+        floor=50,
+        builds=["harness"],
+        legs=_legs_simple("c03", 1500, 20000),
+        rule=GEN_NOTE + "items_per_slot in {1,2,3,5}, block_size in {2,3,4} so ranges cross blocks and index nodes. Per case one "
+        "file and a history of 120 (quick) / 300 (thorough) queries against one plain reader, one caching reader, one "
+        "reopened reader (and 1 in 8 times a ReopenableFile on disk): ends drawn from the boundary set {0, len, a, b, "
+        "a+-1, b+-1 of every stored value, section firsts/lasts} (4 of 5) or uniformly; 1 in 12 empty ranges; 1 in 5 "
+        "repeats of an earlier query; zoom queries as state disturbers; values() on half of them; get_interval_move 1 "
+        "in 10. Oracle: filter-and-clip model with max(a,s) < min(b,e); stored zero-length values are a don't-care for "
+        "membership but may only appear inside [s,e]; values() bitwise vs NaN-filled model; all readers identical. "
+        "Case 0 is the 5000-entry block-cache reset scenario (5300 one-item blocks, each touched once, first 400 again, "
+        "then every 7th backwards); cache hits are observed as queries served with zero underlying reads. "
+        "Non-trivial = some chromosome spans >= 2 sections; distinct by hash of (file, query history).",
+        assumptions=["writer correctness is C01's business: a failed write is counted as blocked"],
+    ),
+    "C04": dict(
+        level="exploration",
+        floor=50,
+        builds=["harness"],
+        legs=_legs_simple("c04", 1500, 20000),
+        rule=GEN_NOTE + "bigBed layouts incl. 'one very long entry followed by many short ones', items_per_slot in {1,2,3,5}, "
+        "block_size in {2,3,4}. Per case a history of 120/300 queries (0 <= s < e, ends from the boundary set incl. "
+        "midpoints of entries) on plain, caching and reopened readers, repeats and get_interval_move as in C03. Oracle "
+        "(three-valued per entry): must be returned if max(a,s) < min(b,e); must not if b < s or a > e; otherwise may; "
+        "returned entries must be a subsequence of the stored order. The tags count how many cases contained a block "
+        "whose largest end is not its last entry's (and whose block is not the last child of its node).",
+        assumptions=["writer correctness is C02's business: a failed write is counted as blocked", "no entry (0,0) is generated (C02's finding)"],
+    ),
+    "C05": dict(
+        level="exploration",
+        exhaustive=True,
+        floor=50,
+        builds=["harness"],
+        legs=lambda tier, seed, scratch: [dict(cmd="c05", name="c05", cases=_c05_count(tier), stall_s=120)],
+        rule="Exhaustive enumeration, independent of the seed: every n in 1..40 (quick) / 1..90 (thorough) data blocks x every "
+        "fan-out b in 2..5 / 2..9, as one chromosome and as three chromosomes (all compositions of n into three parts "
+        "for n <= 9, thirds and (1,n-2,1) above), items_per_slot = 1 so blocks = items [10i,10i+5), manual zoom 5 so "
+        "the zoom index has the same n-block shape, alternating compression and pass mode. For every file every query "
+        "whose ends lie in {0, len} + {start-1,start,start+1,end-1,end,end+1 of every block} (thinned deterministically "
+        "above 120 points but keeping every point as a start and as an end): (a) get_interval == filter over all items; "
+        "(b) the blocks the reader actually fetched (observed through a logging Read+Seek) == the leaves of a linear "
+        "scan whose span touches the query, in file order; (c) the independent walker's pruned descent of the written "
+        "tree == its linear scan (node spans contain their subtrees, child offsets land on nodes); (d) the same for the "
+        "zoom index via get_zoom_interval; (e) tree depth = ceil(log_b n) and leaves contiguous in file order. "
+        "Non-trivial = n >= 2; tags give the (levels, last-node fill) histogram.",
+        assumptions=["libdeflater is trusted to inflate blocks for the walker"],
+    ),
+    "C06": dict(
+        level="exploration",
+        floor=50,
+        builds=["harness"],
+        legs=_legs_simple("c06", 6000, 100000),
+        rule=GEN_NOTE + "Even cases are bigWigs, odd cases bigBeds (overlapping / nested / identical / zero-length entries), single "
+        "and two pass. Oracle: get_summary() vs per-base statistics of the input (bigBed: of the depth array, covered "
+        "bases only): bases_covered exact, min/max exact, sum/sumsq exact for the exact-arithmetic value class and "
+        "within 4*n*eps*sum|term| otherwise; total_items = number of sections (bigWig: sum of ceil(n_c/items_per_slot)) "
+        "or entries (bigBed, also via item_count()). Don't-care: min/max when a zero-length item could take part in "
+        "them.",
+        assumptions=["writer/reader round trip is C01/C02's business: a failed write is counted as blocked"],
+    ),
     "C07": dict(
         level="exploration",
         floor=50,
         builds=["harness"],
-        legs=_legs_simple("c07", 1200, 30000),
+        legs=_legs_simple("c07", 8000, 200000),
         rule=GEN_NOTE + "items_per_slot in {1,2,3,5} and block_size in {2,3,4} so a zoom level spans several blocks; manual "
         "resolutions {1,4,7,10,13,100,400,1000,...} two times out of three. Every zoom block of every level is decoded "
         "by the independent walker (harness/src/walk.rs) and each record compared with statistics recomputed from the "
@@ -70,7 +137,7 @@ PROPS = {
         level="exploration",
         floor=50,
         builds=["harness"],
-        legs=_legs_simple("c08", 1200, 30000),
+        legs=_legs_simple("c08", 8000, 200000),
         rule=GEN_NOTE + "Same oracle as C07 with the per-base coverage depth of the entries as the signal (depth array built "
         "per base; only covered bases count). No entry (0,0) is generated (that input is C02's finding).",
         assumptions=["libdeflater is trusted to inflate blocks for the walker"],
